@@ -170,6 +170,7 @@ def run(ctx):
     if res.get("?model_errors"):
         ctx.correspondence_broken("model-driver", res["?model_errors"][:3])
     # a sample under the sanitizer build as well (memory errors, assertions)
+    deep_failing = []
     sample_ids = [c for i, c in enumerate(cases) if i % (8 if quick else 4) == 0 or c.startswith("k")]
     res_asan = ae.eval_expr_cases({c: cases[c] for c in sample_ids}, Ta, work, "c11a", legs=("var",))
     for cid, tree in cases.items():
@@ -214,14 +215,42 @@ def run(ctx):
                 counts["model=real"] += 1
             continue
         if real != expected:
-            violation("value:" + key, "VM result differs from the C semantics for %s" % key,
-                      dict(case, expected=expected, observed=real, model=rt))
+            if cid.startswith("d"):
+                deep_failing.append((cid, tree))      # shrunk below
+            else:
+                violation("value:" + key, "VM result differs from the C semantics for %s" % key,
+                          dict(case, expected=expected, observed=real, model=rt))
         if rt != real:
             ctx.correspondence_broken("vm-vs-rt_eval", dict(case, model=rt, real=real, reference=expected))
         else:
             counts["model=real"] += 1
         if len(ctx.coverage["samples"]) < 4 and counts["evaluations"] % 997 == 1:
             ctx.sample({"program": r["src_var"], "vm": real, "model": rt, "reference": expected})
+
+    # shrink failing random trees to their smallest failing subtree
+    sub, owner = collections.OrderedDict(), {}
+    for cid, tree in deep_failing[:40]:
+        for j, st in enumerate(ac.subtrees(tree)):
+            if st[0] != "L":
+                sub["%s.s%d" % (cid, j)] = st
+                owner["%s.s%d" % (cid, j)] = cid
+    sres = ae.eval_expr_cases(sub, Tp, work, "c11s", legs=("var",)) if sub else {}
+    best = {}
+    for sid, st in sub.items():
+        r = sres[sid]
+        m = r.get("model")
+        if not m or m["ty"] in (None, "enum") or m["ub"] or r["ref"][0] in ("undef", "trap"):
+            continue
+        if r["var"] != r["ref"]:
+            cid = owner[sid]
+            if cid not in best or ac.size(st) < ac.size(best[cid][0]):
+                best[cid] = (st, r)
+    for cid, tree in deep_failing[:40]:
+        if cid in best:
+            st, r = best[cid]
+            violation("value:" + ae.root_key(st), "VM result differs from the C semantics for %s" % ae.root_key(st),
+                      {"program": r["src_var"], "tree": ac.sx(st), "expected": r["ref"], "observed": r["var"],
+                       "model": r["model"]["rt"], "found_in": ac.sx(tree)})
 
     # ---- assignments --------------------------------------------------------------------
     acases = collections.OrderedDict()
